@@ -222,6 +222,13 @@ Proof.
     apply np_bind; [np_go IH Hd|]. intros ixs. apply each_np. intros. apply np_trav_indices.
   - (* EBin *)
     destruct o; apply cross_np; try (intros; sub IH Hd); try (intros; apply no_short_np); try apply np_calcs.
+  - (* EWithEntries *)
+    apply each_np. intros c0 st0. apply np_bind; [apply np_deref|]. intros n.
+    apply np_bind; [unfold to_entries_items; destruct n as [[] ?| |]; np_pure|]. intros [items|]; [|apply np_ok].
+    destruct (alloc_repl st0 c0 (Seq items)) as [ep st1].
+    apply np_bind; [apply each_np; intros; sub IH Hd|]. intros o.
+    apply np_bind; [apply np_collect_items|]. intros coll. apply np_bind; [apply np_entries_of_items|]. intros es.
+    destruct (dup_keys es); [apply np_unsup | unfold one; apply np_ok].
   - (* EAssign *)
     apply np_bind; [sub IH Hd|]. intros o0. apply np_bind; [|intros; apply np_ok].
     apply cross_np; try (intros; sub IH Hd); [intros; apply no_short_np | apply np_assign_calc].
